@@ -367,7 +367,7 @@ pub const ATTR_NAMES: &[&str] = &[
     "aпривет", "abcdeé", "é", "日本語", "a日本", "xmlnsé", "xmlns:é", "xml:é", "ÉCOLE", "école",
     "_", "__", "_.", "x:_", "_1", "a__b",
     "ab", "bc", "abc", "x", "i", "dx", "idx", "sid", "d",
-    "n:k:id", "Aa", "BB", "costarring", "liquid", "\u{10400}a", "\u{ff41}b", "k\u{fffd}", "xmlns:p", "xmlns:q", "xmlns:r",
+    "line2", "line10", "v9", "v10", "n:k:id", "Aa", "BB", "costarring", "liquid", "\u{10400}a", "\u{ff41}b", "k\u{fffd}", "xmlns:p", "xmlns:q", "xmlns:r",
 ];
 
 const TEXTS: &[&str] = &[
@@ -469,6 +469,8 @@ impl GenCfg {
                 &["p:item", "q:item", "r:item", "item"],
                 &["x\u{fffd}", "x\u{fffd}y", "x"],
                 &["n:b:c", "b:c", "c", "n:c"],
+                &["item", "Item", "ITEM", "item_3", "item_1", "item_2"],
+                &["line2", "line10", "line1", "v9", "v10"],
             ];
             let g = *rng.pick(groups);
             for n in g {
@@ -597,7 +599,14 @@ fn misc_node(rng: &mut Rng, cfg: &GenCfg, kids: &mut Vec<Node>) {
         kids.push(Node::Comment(rng.pick(COMMENTS).to_string()));
     }
     if rng.pct(cfg.p_pi) {
-        kids.push(Node::PI(rng.pick(PIS).to_string()));
+        if rng.pct(25) {
+            // processing instructions other tools give a meaning to, naming an element of this document
+            let target = *rng.pick(&["xml-multiple", "xml-stylesheet", "xml-model", "oxygen", "xml-single"]);
+            let name = rng.pick(&cfg.elem_names).clone();
+            kids.push(Node::PI(if rng.pct(50) { format!("{target} {name}") } else { format!("{target} /r/{name}") }));
+        } else {
+            kids.push(Node::PI(rng.pick(PIS).to_string()));
+        }
     }
     if rng.pct(cfg.p_ws_text) {
         kids.push(Node::Text(rng.pick(&["\n", "\n  ", " ", "\t"]).to_string()));
